@@ -808,7 +808,9 @@ func c20BatteryWorlds() []*World {
 	}
 	// (3) two ids in the default output, each with its own --schema-root-type (and output)
 	{
-		t0 := mkFile("t0", 0, func(f *SFile) Obj { return obj(Obj{{"mk_t0", str}, {"t0r1", Obj{{"$ref", "t1f.json"}}}}, Obj{def("t0", "T0Da")}, f.ID) }, []string{"T0Da"},
+		t0 := mkFile("t0", 0, func(f *SFile) Obj {
+			return obj(Obj{{"mk_t0", str}, {"t0r1", Obj{{"$ref", "t1f.json"}}}}, Obj{def("t0", "T0Da")}, f.ID)
+		}, []string{"T0Da"},
 			[]RefUse{{FromTag: "t0", Prop: "t0r1", Ref: "t1f.json", ToTag: "t1"}})
 		t1 := mkFile("t1", 0, func(f *SFile) Obj { return obj(Obj{{"mk_t1", str}}, Obj{def("t1", "T1Da")}, f.ID) }, []string{"T1Da"}, nil)
 		t2 := mkFile("t2", 0, func(f *SFile) Obj { return obj(Obj{{"mk_t2", str}}, nil, f.ID) }, nil, nil)
